@@ -472,7 +472,12 @@ fn gen_source(
                 // write
                 let n = 1 + rng.below(3);
                 let mut forms = vec![];
-                let first = if rng.chance(1, 4) { (*rng.pick(&LOOKALIKES)).to_string() } else { text_line(rng, opts).trim().to_string() };
+                let mut first = if rng.chance(1, 4) { (*rng.pick(&LOOKALIKES)).to_string() } else { text_line(rng, opts).trim().to_string() };
+                // stored content that mentions the name of another stored tag: substituted text is never re-expanded
+                if listening.is_some() && !pending_tags.is_empty() && rng.chance(1, 2) {
+                    first = format!("see {} there", rng.pick(&pending_tags));
+                    p.sig.push("tag-content-names-tag".into());
+                }
                 b.head(&ws, &pre, format!("{ws}{pre}TXTPP#write {first}"), true, false);
                 for _ in 1..n {
                     let a = if rng.chance(1, 3) {
@@ -557,6 +562,10 @@ fn gen_source(
         let l = if pending_tags.len() == 1 && rng.chance(1, 2) {
             pending_tags[0].clone()
         } else {
+            // either order: a tag further left may hold text that names a tag further right
+            if rng.chance(1, 2) {
+                pending_tags.reverse();
+            }
             pending_tags.iter().map(|t| format!("[{t}]")).collect::<Vec<_>>().join(" ")
         };
         // must not merge into an open block: it carries the tag use sites
